@@ -97,7 +97,23 @@ BASE = [
 ]
 
 
+def _fine_bases():
+    """stop(timeout=T) arriving on a bus that has just drained while another task hands it an event with a long handler a few loop
+    ticks later (the window is 2-5 loop iterations wide: every injection point is enumerated, step 1)"""
+    for ny in (0, 1, 2, 3, 4):
+        yield {'buses': [{'par': False, 'hist': None, 'rank': 1}], 'fwd': [],
+               'handlers': [{'bus': 0, 'pat': 0, 'kind': 'async', 'prog': [['sleep', 0.05]], 'ret': 'idx'}, {'bus': 0, 'pat': 1, 'kind': 'async', 'prog': [['sleep', 16.0]], 'ret': 'idx'}],
+               'actors': [[['disp', 0, 0]], [['sleep', 0.05]] + ([['yield', ny]] if ny else []) + [['disp', 0, 1]]],
+               'maxdepth': 1, 'cap': 10, 'warm': True}
+
+
 def enumerate_cases(tier, seed):
+    for base in _fine_bases():
+        pilot = run_scenario(dict(base))
+        K = pilot['iters'] - pilot['iter0']
+        for T in (0.05, 0.3):
+            for k in range(0, K):
+                yield dict(base, inject={'kind': 'stop', 'timeout': T, 'clear': False, 'bus': 0, 'k': k})
     bases = [BASE[0], BASE[3], BASE[4]] if tier == 'quick' else BASE
     for bi, base in enumerate(bases):
         pilot = run_scenario(dict(base))
